@@ -17,6 +17,16 @@ CLAIMED = {
    note="Bounds: <=3 options x <=3 draws (4x4 thorough), tables 2x2 (3x2 thorough); exact reals; generator by contract (uniform in [lo,hi), arbitrary permutations; outcross_shuffle explores the rotations of each exchange-order shuffle, justified in evidence.stubs).",
    technique="symbolic execution of the real numpy code on z3-term arrays (symnp) + z3 per-path obligations, symbolic random generator, replay on real numpy",
    design="2/C17"),
+   "C09": dict(
+   text="Two solver-decided layers over the real genotype-matrix classes. (1) exact-real symbolic execution of tacount/tafreq/acount/afreq/afixed/apoly/maf/meh/gtcount/gtfreq/mat_asformat of DenseGenotypeMatrix and DensePhasedGenotypeMatrix (incl. after in-place taxa edits and phased vs. unphased projection) on symbolic allele calls, each statistic proved equal to its textbook definition; (2) fp64 kernels: the arithmetic of afreq/afixed/apoly/maf is translated from the current source (AST) into IEEE-754 double terms and z3 decides, for every population size n<=64 (256 thorough) and every allele count, that p==0/p==1 exactly when the locus is fixed, 0<=p<=1, afixed<=>not apoly, maf in [0,0.5]. Counterexamples are replayed on the real classes.",
+   note="Bounds: taxa<=3 (4), markers<=2, ploidy 2 in real mode; n<=64 (256) and ploidy 2 (1..4) in fp64 mode. Outside: output dtype conversions, larger populations.",
+   technique="symbolic execution on z3-term arrays (symnp, QF_NIRA) + AST-to-z3-FloatingPoint translation of the frequency kernels (QF_FP/QF_BV), replay on real numpy",
+   design="2/C09"),
+   "C10": dict(
+   text="One inductive closed-population step decided by z3 on the real usl/lsl/gebv code: from an arbitrary symbolic population P and an arbitrary derived population P' whose alleles are present in P (the closure C01 proves for mating), the limits of P bracket every gebv in P and P', usl(P')<=usl(P), lsl(P')>=lsl(P), all-fixed => lsl=usl=value, limits equal their independent definition, and phased/unphased/raw-array inputs agree. fp64 kernels (AST translation of the current source) decide that the p>0.0 / p>=1.0 comparators agree with the allele-count predicates for all n<=64 (256) and, separately, for every double p in [0,1].",
+   note="Bounds: |P|,|P'|<=2 (3), markers<=2 (3), traits<=2; exact reals in the step; fp64: n<=64 (256), |u|<=1e150. The step covers histories of any length within the size bound; the closure assumption is C01's result.",
+   technique="symbolic execution on z3-term arrays (inductive step, QF_NRA) + AST-to-z3-FloatingPoint translation of the frequency/comparator kernels, replay on real numpy",
+   design="2/C10"),
 }
 NA = {}
 for pid in props:
